@@ -52,7 +52,7 @@ type initEnt struct {
 }
 
 type caseRec struct {
-	Target string    `json:"target"` // value | store
+	Target string    `json:"target"`          // value | store
 	Codec  string    `json:"codec,omitempty"` // "" = fixed (8 bytes) | varlen (0 -> zero bytes, 1..255 -> one byte)
 	Init   []initEnt `json:"init"`
 	Ops    []op      `json:"ops"`
@@ -665,28 +665,48 @@ func runStore(cr caseRec, in *faultkv.Injector, st kvstore.KVStore, inner kvstor
 // ---------------------------------------------------------------- generation
 
 var valueKinds = []string{"get", "has", "set", "del", "cinc", "cnc", "cfail"}
+var valueKindsC = []string{"get", "has", "set", "del", "cinc", "cnc", "cfail", "cconst"}
 
 func valueInits() [][]initEnt {
 	return [][]initEnt{nil, {{Key: "tv", State: "present", V: 5}}, {{Key: "tv", State: "garbage"}}}
 }
 
+// genVal draws a value: for the varlen codec from a small domain with empty (0),
+// one-byte and 8-byte encodings, so that equal re-writes (no-op writes) are frequent.
+func genVal(rng *rand.Rand, codec string) int64 {
+	if codec == "varlen" {
+		return []int64{0, 0, 1, 7, 300}[rng.Intn(5)]
+	}
+	if rng.Intn(3) == 0 {
+		return []int64{5, 100, 101}[rng.Intn(3)]
+	}
+	return int64(100 + rng.Intn(900))
+}
+
+func genCodec(rng *rand.Rand) string {
+	if rng.Intn(2) == 0 {
+		return "varlen"
+	}
+	return ""
+}
+
 func genValueCase(rng *rand.Rand) caseRec {
-	cr := caseRec{Target: "value"}
+	cr := caseRec{Target: "value", Codec: genCodec(rng)}
 	switch rng.Intn(3) {
 	case 1:
-		cr.Init = []initEnt{{Key: "tv", State: "present", V: int64(rng.Intn(100))}}
+		cr.Init = []initEnt{{Key: "tv", State: "present", V: genVal(rng, cr.Codec)}}
 	case 2:
 		cr.Init = []initEnt{{Key: "tv", State: "garbage"}}
 	}
 	n := 1 + rng.Intn(8)
 	for i := 0; i < n; i++ {
-		k := valueKinds[rng.Intn(len(valueKinds))]
-		if rng.Intn(4) == 0 {
+		k := valueKindsC[rng.Intn(len(valueKindsC))]
+		if rng.Intn(5) == 0 {
 			k = "cinc"
 		}
 		o := op{K: k}
-		if k == "set" {
-			o.V = int64(100 + rng.Intn(900))
+		if k == "set" || k == "cconst" {
+			o.V = genVal(rng, cr.Codec)
 		}
 		cr.Ops = append(cr.Ops, o)
 	}
@@ -696,11 +716,11 @@ func genValueCase(rng *rand.Rand) caseRec {
 var storeKeys = []string{"a", "ab", "b"}
 
 func genStoreCase(rng *rand.Rand) caseRec {
-	cr := caseRec{Target: "store"}
+	cr := caseRec{Target: "store", Codec: genCodec(rng)}
 	for _, k := range storeKeys {
 		switch rng.Intn(4) {
 		case 0, 1:
-			cr.Init = append(cr.Init, initEnt{Key: k, State: "present", V: int64(rng.Intn(100))})
+			cr.Init = append(cr.Init, initEnt{Key: k, State: "present", V: genVal(rng, cr.Codec)})
 		case 2:
 			if rng.Intn(2) == 0 {
 				cr.Init = append(cr.Init, initEnt{Key: k, State: "garbage"})
@@ -723,7 +743,7 @@ func genStoreCase(rng *rand.Rand) caseRec {
 		case r < 3:
 			o = op{K: "has", Key: key}
 		case r < 5:
-			o = op{K: "set", Key: key, V: int64(100 + rng.Intn(900))}
+			o = op{K: "set", Key: key, V: genVal(rng, cr.Codec)}
 		case r < 6:
 			o = op{K: "del", Key: key}
 		default:
@@ -837,25 +857,35 @@ func sequentialPart(c *vf.Ctx) {
 	// (1) exhaustive short TypedValue histories
 	exhLen := c.Pick(4, 5)
 	var exh []caseRec
-	for _, init := range valueInits() {
-		for l := 1; l <= exhLen; l++ {
-			n := 1
-			for i := 0; i < l; i++ {
-				n *= len(valueKinds)
-			}
-			for idx := 0; idx < n; idx++ {
-				cr := caseRec{Target: "value", Init: init}
-				x := idx
-				ops := make([]op, l)
-				for i := l - 1; i >= 0; i-- {
-					ops[i] = op{K: valueKinds[x%len(valueKinds)]}
-					if ops[i].K == "set" {
-						ops[i].V = int64(10 * (i + 1))
-					}
-					x /= len(valueKinds)
+	for _, codec := range []string{"", "varlen"} {
+		kinds, inits := valueKinds, valueInits()
+		if codec == "varlen" {
+			kinds = valueKindsC
+			inits = append(inits, []initEnt{{Key: "tv", State: "present", V: 0}}) // present with ZERO-length bytes
+		}
+		for _, init := range inits {
+			for l := 1; l <= exhLen; l++ {
+				n := 1
+				for i := 0; i < l; i++ {
+					n *= len(kinds)
 				}
-				cr.Ops = ops
-				exh = append(exh, cr)
+				for idx := 0; idx < n; idx++ {
+					cr := caseRec{Target: "value", Codec: codec, Init: init}
+					x := idx
+					ops := make([]op, l)
+					for i := l - 1; i >= 0; i-- {
+						ops[i] = op{K: kinds[x%len(kinds)]}
+						switch {
+						case codec == "varlen" && ops[i].K == "set":
+							ops[i].V = []int64{0, 7}[i%2] // 0 encodes to zero bytes
+						case ops[i].K == "set":
+							ops[i].V = int64(10 * (i + 1))
+						}
+						x /= len(kinds)
+					}
+					cr.Ops = ops
+					exh = append(exh, cr)
+				}
 			}
 		}
 	}
@@ -868,7 +898,7 @@ func sequentialPart(c *vf.Ctx) {
 		merge(c, st)
 	})
 	c.Count("histories_exhaustive_value", len(exh))
-	c.Extra("exhaustive_bound", fmt.Sprintf("TypedValue: all histories of length <= %d over {Get, Has, Set, Delete, Compute(inc), Compute(NotChanged), Compute(fails)} x initial raw state {absent, present, undecodable}, each with every single fallible site failing", exhLen))
+	c.Extra("exhaustive_bound", fmt.Sprintf("TypedValue: all histories of length <= %d over {Get, Has, Set, Delete, Compute(inc), Compute(NotChanged), Compute(fails)} x initial raw state {absent, present, undecodable} with the fixed-width codec, and the same plus Compute(const 0) and initial state present-with-zero-length-bytes under a variable-length codec (0 -> zero bytes, 1..255 -> one byte), each with every single fallible site failing", exhLen))
 
 	// (2) seeded histories (length 1..8) on TypedValue and TypedStore
 	n := c.Pick(20000, 120000)
@@ -1289,6 +1319,8 @@ func run(c *vf.Ctx) {
 	c.Require("evaluations", 20000)
 	c.Require("nontrivial", 10000)
 	c.Require("fault_contexts", 27)
+	c.Require("zero_length_encodings_written", 1000)
+	c.Require("noop_writes_same_bytes", 1000)
 	c.Require("compute_only_calls", 10000)
 	c.Require("mixed_ops", 5000)
 	c.Require("overlapping_ops", 1000)
